@@ -158,13 +158,48 @@ def rule_snapshot(P):
 
 
 def rule_secure(P):
-    r = Rule("C46-secure", "K8", "evutil_secure_rng_get_bytes forwards (buf, n) unchanged", floor=1)
+    """the whole requested buffer is filled: whatever pieces evutil_secure_rng_get_bytes hands to the generator, together they cover [buf, buf+n) exactly (decided by evaluation, so a
+    chunked implementation is judged by its pieces, not by its spelling)"""
+    from ..interp import normx, run_all
+    r = Rule("C46-secure", "K6/K8", "evutil_secure_rng_get_bytes: the pieces handed to the generator cover the requested buffer exactly, for every length tried", floor=8)
     f = P.fn("evutil_secure_rng_get_bytes")
-    calls = [el for el in f.calls() if callee_name(el.e) in ("arc4random_buf", "ev_arc4random_buf")]
-    ok = len(calls) == 1 and eq(strip(calls[0].e[2][0]), ["var", f.params[0][0], "param"]) and eq(strip(calls[0].e[2][1]), ["var", f.params[1][0], "param"])
-    r.inst("secure", {"forwards_unchanged": ok})
-    if not ok:
-        r.bad("K8:evutil_secure_rng_get_bytes:args", "%s:%d" % (f.file, f.line), f.name, "the buffer/length are not forwarded unchanged to the generator")
+    BUF = 100000
+    for n in (0, 1, 31, 32, 255, 256, 257, 512, 1000, 4096, 65536 + 5, (1 << 20) - 1):
+        env = {"#typed": 1, f.params[0][0]: BUF, f.params[1][0]: n, "#pieces": ()}
+
+        def hook(el, e_):
+            if callee_name(el.e) in ("arc4random_buf", "ev_arc4random_buf"):
+                try:
+                    a, k = evalx(normx(el.e[2][0]), e_, P), evalx(normx(el.e[2][1]), e_, P)
+                except EvalError:
+                    return "impure"
+                e_["#pieces"] = e_["#pieces"] + ((a, k),)
+                return 0
+            return None
+        outs = [o for o in run_all(f, (f.entry, 0), env, lambda el: False, P, hook, max_steps=200000) if not (o.kind == "exit" and o.why == "noreturn")]
+        for o in outs:
+            if o.kind not in ("ret", "exit"):
+                r.brk("evutil_secure_rng_get_bytes(%d): %s %s" % (n, o.kind, o.why))
+                return r
+            pieces = list(o.env["#pieces"])
+            covered = set()
+            outside = False
+            for a, k in pieces:
+                if not (isinstance(a, int) and isinstance(k, int)) or k < 0 or k > 1 << 21:
+                    outside = True
+                    continue
+                for x in range(a, a + k):
+                    if BUF <= x < BUF + n:
+                        covered.add(x)
+                    else:
+                        outside = True
+            r.inst(n, {"requested": n, "pieces": [[a - BUF if isinstance(a, int) else str(a), k] for a, k in pieces][:6], "bytes_filled": len(covered)})
+            if len(covered) != n or outside:
+                missing = sorted(set(range(BUF, BUF + n)) - covered)
+                r.bad("K8:evutil_secure_rng_get_bytes:args", "%s:%d" % (f.file, f.line), f.name,
+                      "a request for %d bytes: the generator is given the pieces (offset, length) %s - %s" % (
+                          n, [[a - BUF if isinstance(a, int) else str(a), k] for a, k in pieces][:6],
+                          ("bytes %d..%d of the buffer are never filled" % (missing[0] - BUF, missing[-1] - BUF)) if missing else "bytes outside the buffer are written"))
     return r
 
 
